@@ -215,6 +215,13 @@ def storage_trees(rep, pid, tier, seed, replay_in=None):
     if r.violated:
         raise vlib.Inconclusive("Storage.tla violates its own laws (%s): spec bug" % r.violated)
     rep.add_tlc(r, "Storage.tla complete state graph (2 heights x 2 views x 2 hashes x 2 senders, at most 3 entries): one proposal per view, stores only add, clear is exact")
+    # unbounded (Apalache): OneProposalPerView is an inductive invariant of the log for ALL heights, views, hashes, senders and
+    # any number of entries, and no step replaces the first proposal of a view (StorageInd.tla, same step functions with Int ids)
+    for init, inv, n in (("Init", "IndInv", 0), ("IndInit", "IndInv", 1), ("IndInit", "FirstProposalWins", 1)):
+        ok, out, secs = vlib.apalache("StorageInd", init, inv, n)
+        if not ok:
+            raise vlib.Inconclusive("Apalache: StorageInd %s => %s fails (specification matter):\n%s" % (init, inv, out))
+        rep.parts.append({"what": "Apalache StorageInd.tla: --init=%s --inv=%s --length=%d, no error (unbounded integers)" % (init, inv, n), "wall_s": round(secs, 1)})
     args = ["-seed", seed, "-depth", 2, "-rand", 300 if tier == "quick" else 6000, "-randlen", 40 if tier == "quick" else 80]
     trees.run_tree(rep, pid, "storage", args, "Trace_Storage", "Trace_Storage.cfg", describe, replay_in=replay_in, timeout=3000, only_prefix=pid.lower() + "_")
 
